@@ -5,7 +5,6 @@ import (
 
 	"golang.org/x/tools/go/ssa"
 
-	"verif/sym"
 )
 
 // Contract stubs (each one is part of the claim of a check that enables it).
@@ -26,26 +25,16 @@ func fileContent(in *Interp, f Value) ([]Value, bool) {
 	return data, true
 }
 
-// StubNewLocation implements the contract proved by check C07-a for
-// jerr.NewLocation(f, i): it panics iff f == nil, len(content) == 0 or
-// i > len(content); otherwise it returns a Location with File = f, Index = i
-// and opaque (concrete placeholder) Line / Column / Quote.
+// StubNewLocation implements the contract decided by check C07 (job "location
+// contract") for jerr.NewLocation(f, i): it panics iff f == nil; otherwise it
+// returns a Location with File = f, Index = i and opaque (concrete placeholder)
+// Line / Column / Quote.
 func StubNewLocation(in *Interp, fn *ssa.Function, args []Value) Value {
-	data, ok := fileContent(in, args[0])
-	if !ok {
+	if _, ok := fileContent(in, args[0]); !ok {
 		in.rtPanic("invalid memory address or nil pointer dereference")
 	}
-	idx := args[1].(Sc)
-	n := uint64(len(data))
-	bad := mkBool(n == 0 || idx.C > n)
-	if idx.T != nil && !idx.T.IsConst() && n != 0 {
-		bad.T = in.St.Cmp(sym.OpUlt, in.St.Const(64, n), idx.T)
-	}
-	if in.branch(bad, RecCheck, "NewLocation-contract") {
-		in.rtPanic("index out of range (jerr.NewLocation contract: empty content or index beyond the end)")
-	}
 	// Location{File, Quote, Index, Line, Column}
-	return Struct{args[0], Str{}, idx, Sc{}, Sc{}}
+	return Struct{args[0], Str{}, args[1], Sc{}, Sc{}}
 }
 
 // StubDecodeRune: the rune is only used to render error messages; it is
